@@ -31,6 +31,8 @@ def verify(name):
     env = dict(os.environ, PYTHONPATH=wt, PYTHONDONTWRITEBYTECODE='1')
     res = {}
     try:
+        # warm-up: ply writes its generated tables (and says so on stderr) on the first use in a fresh worktree
+        sh('%s -c "import hotxlfp; hotxlfp.Parser().parse(\'1\')"' % PY, cwd=wt, env=dict(env, PYTHONDONTWRITEBYTECODE=''))
         rc, out = sh('%s %s/demo.py' % (PY, d), cwd=wt, env=env)
         res['demo_clean_exit'] = rc
         rc, out = sh('git apply %s/patch.diff' % d, cwd=wt)
